@@ -139,6 +139,8 @@ UPDATES = {
                  'partial_cmp in operand order, orders a mixed int/uint pair by magnitude and is an error for every other pair; lt / le / gt / ge are true for exactly {Less}, {Less, Equal}, {Greater}, {Greater, Equal}; '
                  '== compares payloads on the diagonal, is false across types after widening, and handles every pair of operand classes the same way in both orders (symmetry of the table); sort/min/max use that order with '
                  'strict replacement. Does not decide transitivity on doubles (std partial_cmp).'},
+ 'C07': {'technique': 'symbolic execution of every macro implementation into exhaustive decision behaviours on lists of 0..3 elements, compared with the defining folds; MIR skeleton extraction (operand expression trees + dominance + edge reachability)',
+         'text': None},
  'C11': {'technique': 'effect / who-may-call rules + type-closure walk + must-update dataflow over the mutators of the stored state',
          'text': None},
  'C12': {'technique': None, 'text': None},
@@ -157,6 +159,8 @@ UPDATES = {
                  'the translator. The SQL text is not re-parsed.'},
 }
 EXTRA_TEXT = {
+ 'C07': ' Also (R07.5): for lists of 0..3 elements (0..4 in the thorough tier) and every assignment of outcomes - truthy / falsy / failing / value - to the body evaluations, the behaviour of each macro implementation (all, exists, exists_one, filter, map with 2 and 3 arguments, reduce), obtained by symbolic execution, equals the behaviour of its defining fold with early exit generated from the property: visited elements, evaluated bodies, bindings, stopping point and result.',
+ 'C01': '',
  'C11': ' Also: in every mutator of CelContext / BindContext a field that is updated at all is updated on every path on which another field is updated (no derived table can keep a stale entry after a name is replaced).',
  'C12': ' Also: a program found under an identifier is ALWAYS evaluated by run_raw on the same interpreter (no path from the hit to the return avoids it).',
  'C13': ' Also: every Int / UInt / Float token the number scanner builds carries exactly the result of the std parser for the scanned text on every path; the one accepting range test of the escape tables is the octal first digit 0..3.',
